@@ -20,3 +20,13 @@ package language
 //@   loop 1 invariant [left] forall(k, 0, i, ScriptRanges[k].End < r)
 //@   loop 1 invariant [right] forall(k, j, len(ScriptRanges), r < ScriptRanges[k].Start)
 //@   loop 1 decreases j - i
+//
+// LangID.UseScript (used by shaping.enforceLang, property C07 "the language tag is compatible with the script"):
+// as documented - true when nothing is known about the language (id 0, or an id at or beyond knownLangsCount: those
+// entries carry no orthographic data) or the script is not a strong one.
+//@ func LangID.UseScript C07
+//@   inline
+//@   mode int
+//@   ensures [nothing-known-means-compatible] implies(lang == 0 || int(lang) >= knownLangsCount, result)
+//@   ensures [weak-scripts-always-compatible] implies(!s.Strong(), result)
+//@   modifies nothing
